@@ -11,7 +11,7 @@ Trees are tuples:
 
 Reference semantics (the oracle the property states): C `int` arithmetic as Promela/Spin defines it - precedence and
 left-associativity of the C operators, truncating division, remainder with the sign of the dividend, comparisons and
-boolean operators yield 0/1. Whatever C leaves undefined (32-bit overflow, shift by a negative count or by >= 31, shift of
+boolean operators yield 0/1. Whatever C leaves undefined (32-bit overflow, shift by a negative count or by >= 31, left shift of
 a negative value, INT_MIN / -1) raises Reject: the generator never emits such a (sub-)expression, nothing is demanded.
 Division/modulo by zero, out-of-range indices and undeclared names raise Fault: the datamodel must answer with an error.
 
@@ -61,7 +61,9 @@ def apply_bin(op, l, r):
         q = trunc_div(l, r)
         v = q if op == '/' else l - q * r
     elif op in ('<<', '>>'):
-        if r < 0 or r >= 31 or l < 0:
+        # '>>' of a negative value is implementation-defined in C, and an arithmetic shift with every compiler Spin is built with: demanded.
+        # '<<' of a negative value stays out (undefined).
+        if r < 0 or r >= 31 or (l < 0 and op == '<<'):
             raise Reject('shift')
         v = l << r if op == '<<' else l >> r
     elif op == '<': v = int(l < r)
